@@ -324,18 +324,25 @@ structure RS where
   tb : Nat := 0
 deriving Repr, Inhabited
 
-/-- one iteration of the loop of `reshape_samples` (`i`-th entry `mode` of the mode order) -/
+/-- the placement half of one loop iteration: the `i`-th sample goes to key `modes[i % B]`, time bin
+`tb`; returns the new `new_samples` and `timebin_idx` -/
+def placeSample (modes : List Nat) (B T : Nat) (out : List (Nat × List (List Int))) (tb i : Nat)
+    (sample : Int) : List (Nat × List (List Int)) × Nat :=
+  let key := modes.getD (i % B) 0
+  let cur := if out.any (·.1 == key) then alGet [] out key else List.replicate T []
+  let cur := listSet cur tb (cur.getD tb [] ++ [sample])
+  (alSet out key cur, if (i + 1) % B = 0 then (tb + 1) % T else tb)
+
+/-- one iteration of the loop of `reshape_samples` (`i`-th entry `mode` of the mode order): the next
+unread sample of `mode` is read (`idx_tracker`) and placed -/
 def reshapeStep (samples : List (Nat × List Int)) (modes : List Nat) (B T : Nat) (st : RS)
     (im : Nat × Nat) : RS :=
   let i := im.1
   let mode := im.2
-  let key := modes.getD (i % B) 0
-  let cur := if st.out.any (·.1 == key) then alGet [] st.out key else List.replicate T []
   let k := alGet 0 st.tracker mode
   let sample := (alGet [] samples mode).getD k 0
-  let cur := listSet cur st.tb (cur.getD st.tb [] ++ [sample])
-  { tracker := alSet st.tracker mode (k + 1), out := alSet st.out key cur,
-    tb := if (i + 1) % B = 0 then (st.tb + 1) % T else st.tb }
+  let r := placeSample modes B T st.out st.tb i sample
+  { tracker := alSet st.tracker mode (k + 1), out := r.1, tb := r.2 }
 
 /-- `np.array(v).T` of a rectangular nested list with `T` rows -/
 def transposeRect (v : List (List Int)) : List (List Int) :=
